@@ -11,7 +11,7 @@ from harness import tlc as T
 from harness.core import canon
 
 ND, NS = 2, 2
-NFOLDS = {"n": 2, "presplit": False, "features": None}
+NFOLDS = {"n": 2, "presplit": False, "features": None, "single": False}
 N_INST = 8
 CALLS = {"n": 0, "crash": 0, "log": []}
 
@@ -83,6 +83,9 @@ def make_cv():
     if NFOLDS["presplit"]:       # pre-split data: rows labelled 'train' / 'test' (interleaved here), one fold
         from sktime.series_as_features.model_selection import PresplitFilesCV
         return PresplitFilesCV()
+    if NFOLDS["single"]:         # the library's own single-split helper, seeded: the same split for every strategy and run
+        from sktime.series_as_features.model_selection import SingleSplit
+        return SingleSplit(test_size=0.5, random_state=3)
     if NFOLDS["n"] == 1:
         return ShuffleSplit(n_splits=1, test_size=0.5, random_state=0)     # a single split
     return KFold(n_splits=NFOLDS["n"])
@@ -91,6 +94,10 @@ def make_cv():
 def folds():
     if NFOLDS["presplit"]:       # by definition, not by asking the splitter
         return [([i for i in range(N_INST) if i % 3 != 1], [i for i in range(N_INST) if i % 3 == 1])]
+    if NFOLDS["single"]:         # by definition: scikit-learn's seeded split of the row positions
+        from sklearn.model_selection import train_test_split
+        a, b = train_test_split(np.arange(N_INST), test_size=0.5, random_state=3, shuffle=True)
+        return [(list(a), list(b))]
     return [(list(a), list(b)) for a, b in make_cv().split(np.arange(N_INST))]
 
 
@@ -258,12 +265,13 @@ def run(ctx):
     for i, b in enumerate(behs):
         runs = b["runs"]
         NFOLDS["n"] = b["nf"]
-        NFOLDS["presplit"] = bool(b["nf"] == 1 and i % 2 == 1)
+        NFOLDS["presplit"] = bool(b["nf"] == 1 and i % 4 == 1)
+        NFOLDS["single"] = bool(b["nf"] == 1 and i % 4 == 3)
         NFOLDS["features"] = ["dim_1", "dim_0"] if i % 3 == 2 else None      # explicit feature list in another order than the data's
         obs = observe(runs, work, i)
         ctx.evaluations += 1
         sc = {"runs": [{"o": x["o"], "crash": x["crash"]} for x in runs], "folds": b["nf"], "presplit": NFOLDS["presplit"],
-              "features": NFOLDS["features"]}
+              "features": NFOLDS["features"], "single": NFOLDS["single"]}
         if isinstance(obs, dict):
             ctx.violation(sc, "machinery/crash: " + obs["crash"])
             continue
@@ -329,6 +337,7 @@ def replay(ctx, doc):
     os.makedirs(work, exist_ok=True)
     NFOLDS["n"] = sc.get("folds", 2)
     NFOLDS["presplit"] = bool(sc.get("presplit"))
+    NFOLDS["single"] = bool(sc.get("single"))
     NFOLDS["features"] = sc.get("features")
     obs = observe(sc["runs"], work, 0)
     print(canon(obs)[:3000])
